@@ -41,6 +41,7 @@ def run(chk):
     r1(chk, prog)
     r2(chk, prog)
     r3_insert(chk, prog, m)
+    r3_agree(chk, prog, m)
     r3_delete(chk, prog, m)
     r3_resize(chk, prog, m)
     r4(chk, prog, m)
@@ -283,6 +284,93 @@ def r3_insert(chk, prog, m):
         else:
             chk.proven(rid, f.name, sig, f.entry.term.locstr(), "%d successful path(s) leave slot, count and list consistent" % done)
     chk.floor(rid, len(cases), 8, "insert shape classes")
+
+
+def r3_agree(chk, prog, m):
+    rid = "C06.R3a"
+    chk.rule(rid, "insert and lookup agree on where a key lives, for table sizes that are and are not powers of two (8, 6, 5, 3) and "
+                  "hash values below and above the size: the insert is evaluated on an empty table and on one whose home slot is taken, "
+                  "then the lookup is evaluated on the resulting table with the same key and hash and must be able to return the slot "
+                  "that received the key")
+    fi = m.functions.get("lh_table_insert_w_hash")
+    fl_ = m.functions.get("lh_table_lookup_entry_w_hash")
+    chk.require(fi is not None and not fi.is_decl and fl_ is not None and not fl_.is_decl, "lh_table_insert_w_hash / lh_table_lookup_entry_w_hash not found")
+    chk.touched(fi)
+    chk.touched(fl_)
+    n = 0
+    for SIZE in (8, 6, 5, 3):
+        bad = None
+        und = None
+        for h in (1, SIZE - 1, SIZE, SIZE + 1, 2 * SIZE + 2, 4 * SIZE - 1, 1000003):
+            for taken in (False, True):
+                slots = {i: _sent(EMPTY) for i in range(SIZE)}
+                cnt = 0
+                head = pe.C(0)
+                if taken:
+                    # whatever slot the implementation calls home, make every slot but one live: the insert has one place to go
+                    free_slot = (h + 1) % SIZE
+                    for i in range(SIZE):
+                        if i != free_slot:
+                            slots[i] = _live(i)
+                    cnt = SIZE - 1
+                    head = _ptr(0 if free_slot != 0 else 1)
+                shape = {"t": {TF["size"]: pe.C(SIZE), TF["count"]: pe.C(cnt), TF["table"]: ("ptr", "tab", ()), TF["head"]: head,
+                               TF["tail"]: head, TF["equal_fn"]: ("ptr", "eqfn", ())},
+                         "slots": slots, "model_insert": False}
+                if taken and cnt + 1 > SIZE * 0.66:
+                    # growth would be triggered: keep the load below the threshold instead (one live slot at h % SIZE and one at
+                    # the masked position, everything else EMPTY)
+                    slots = {i: _sent(EMPTY) for i in range(SIZE)}
+                    for s_ in {h % SIZE, h & (SIZE - 1)}:
+                        slots[s_] = _live(s_)
+                    if len([1 for v in slots.values() if v[EF["k"]][0] == "ptr"]) + 1 > SIZE * 0.66:
+                        continue
+                    shape["slots"] = slots
+                    first = min(s_ for s_ in slots if slots[s_][EF["k"]][0] == "ptr")
+                    shape["t"][TF["count"]] = pe.C(len([1 for v in slots.values() if v[EF["k"]][0] == "ptr"]))
+                    shape["t"][TF["head"]] = _ptr(first)
+                    shape["t"][TF["tail"]] = _ptr(first)
+                P = TablePE(prog, shape)
+                try:
+                    leaves = P.run(fi, [("ptr", "t", ()), ("ptr", "newkey", ()), ("ptr", "newval", ()), pe.C(h), pe.C(0)], pe.State())
+                except Exception as e:
+                    und = und or "insert with hash %d: %s" % (h, e)
+                    continue
+                n += 1
+                for lf in leaves:
+                    if lf.kind != "ret" or lf.value != pe.C(0):
+                        continue
+                    where = [loc for loc, v in lf.state.mem.items() if loc[0] == "tab" and _norm(v) == ("ptr", "newkey", ())]
+                    if len(where) != 1:
+                        und = und or "insert with hash %d: the key is stored in %d slots" % (h, len(where))
+                        continue
+                    slot = pe.fields_of(where[0][1])[0] or 0
+                    st2 = pe.State()
+                    st2.mem = dict(lf.state.mem)
+                    Q = TablePE(prog, shape)
+                    try:
+                        lv = Q.run(fl_, [("ptr", "t", ()), ("ptr", "newkey", ()), pe.C(h)], st2)
+                    except Exception as e:
+                        und = und or "lookup with hash %d: %s" % (h, e)
+                        continue
+                    found = set()
+                    for l2 in lv:
+                        nv = _norm(l2.value) if l2.value is not None and l2.kind == "ret" else None
+                        if nv and nv[0] == "ptr" and nv[1] == "tab":
+                            found.add(pe.fields_of(nv[2])[0] or 0)
+                    if slot not in found and bad is None:
+                        bad = ("in a table of %d slots (%s) a key inserted with hash %d is stored in slot %d, but the lookup with the "
+                               "same hash %s: the member just added is reported absent"
+                               % (SIZE, "home slot taken" if taken else "empty", h, slot,
+                                  ("can only return slot(s) %s" % sorted(found)) if found else "reaches an EMPTY slot first and returns NULL"))
+        sig = "table of %d slots" % SIZE
+        if bad:
+            chk.refuted(rid, fi.name, sig, fi.entry.term.locstr(), bad)
+        elif und:
+            chk.undecided(rid, fi.name, sig, fi.entry.term.locstr(), und)
+        else:
+            chk.proven(rid, fi.name, sig, fi.entry.term.locstr(), "the lookup can return the slot chosen by the insert for every hash tried")
+    chk.floor(rid, n, 20, "(size, hash, occupancy) insert evaluations")
 
 
 def _norm(e):
